@@ -229,11 +229,19 @@ def extract_unit(u: Unit, rewrite_log: list) -> List[Piece]:
             w = find_unique(m, u.within, u.name + " (within)")
             wo = body_open(m, w)
             lo, hi = wo, match_brace(m, wo)
-        a = find_unique(m, u.anchor, u.name, lo, hi)
-        a = src.rfind("\n", 0, a) + 1
-        e = find_unique(m, u.block_end, u.name + " (block_end)", a, hi)
+        if u.anchor == "@body":
+            # the block starts at the first statement of the enclosing function: nothing can precede it
+            a = lo + 1
+            if src[a] == "\n":
+                a += 1
+        else:
+            a = find_unique(m, u.anchor, u.name, lo, hi)
+            a = src.rfind("\n", 0, a) + 1
+        e = find_unique(src if '"' in u.block_end else m, u.block_end, u.name + " (block_end)", a, hi)
         e = src.rfind("\n", 0, e) + 1
         body = _apply_rewrites(src[a:e], [r for r in u.rewrites if not r.sig], u.name, rewrite_log)
+        if u.wrap_open:
+            pieces.append(Piece(u.wrap_open + "\n", "glue"))
         if u.attrs:
             pieces.append(Piece(u.attrs + "\n", "spec", label=lab + ":attrs"))
         pieces.append(Piece(u.block_sig.rstrip() + "\n", "spec", label=lab + ":block_sig"))
@@ -242,6 +250,8 @@ def extract_unit(u: Unit, rewrite_log: list) -> List[Piece]:
         pieces.append(Piece("{\n", "glue"))
         pieces += _splice_body(u, body, u.file, line_of(src, a))
         pieces.append(Piece("\n" + u.block_tail + "\n}\n", "spec", label=lab + ":block_tail"))
+        if u.wrap_close:
+            pieces.append(Piece(u.wrap_close + "\n", "glue"))
         return pieces
 
     if u.kind == "split":
